@@ -74,7 +74,7 @@ def ob_free(ctx, D, shape, a, steps):
     v = ctx.reals("v", [(((5 * i) % 11) - 5) / 64 for i in range(D * n)], nice=(-0.25, 0.25)).reshape((1, D) + tuple(shape))
     ctx.eq(expv(v, scale=0.5, steps=0, align_corners=a), v * 0.5, "steps=0 returns the scaled input")
     ctx.eq(expv(v, steps=0, align_corners=a), v, "steps=0, scale=None returns the input")
-    ctx.eng.gs_mode = "witness" if ctx.mode == "sym" else None
+    ctx.witness_cells()
     u_inv = expv(v, steps=steps, align_corners=a, inverse=True)
     u_neg = expv(v, scale=-1, steps=steps, align_corners=a)
     u_fld = expv(-v, steps=steps, align_corners=a)
